@@ -234,13 +234,22 @@ def render_sdl(schema, rng=None, order=None, extend=False, comments=False, multi
             impl_s = (" implements " + " & ".join(impl)) if impl else ""
             out.append(desc + "type %s%s {%s%s\n}" % (n, impl_s, sep, sep.join(_field_sdl(f) for f in fields)))
             if ext_f:
-                ext_impl_s = (" implements " + " & ".join(ext_impl)) if ext_impl else ""
-                ext_blocks.append("extend type %s%s {%s%s\n}" % (n, ext_impl_s, sep, sep.join(_field_sdl(f) for f in ext_f)))
+                # one, two or three `extend type` blocks for the same type (order of fields preserved)
+                chunks = [ext_f]
+                while len(chunks) < 3 and len(chunks[-1]) >= 2 and rng.random() < 0.5:
+                    last = chunks.pop()
+                    cut2 = rng.randint(1, len(last) - 1)
+                    chunks += [last[:cut2], last[cut2:]]
+                for ci, chunk in enumerate(chunks):
+                    # interfaces arrive with the FIRST block when there are several (a later block must not undo it)
+                    ext_impl_s = (" implements " + " & ".join(ext_impl)) if (ext_impl and ci == 0) else ""
+                    ext_blocks.append("extend type %s%s {%s%s\n}" % (n, ext_impl_s, sep, sep.join(_field_sdl(f) for f in chunk)))
         elif k == "union":
             out.append(desc + "union %s = %s" % (n, " | ".join(d["members"])))
         elif k == "input":
             one = " @oneOf" if d.get("one_of") else ""
-            out.append(desc + "input %s%s {%s%s\n}" % (n, one, sep, sep.join("%s: %s" % (f, render_type(t)) for f, t in d["fields"])))
+            dfl = d.get("defaults") or {}
+            out.append(desc + "input %s%s {%s%s\n}" % (n, one, sep, sep.join("%s: %s%s" % (f, render_type(t), (" = " + dfl[f]) if f in dfl else "") for f, t in d["fields"])))
     out += ext_blocks
     if declare_builtins:
         # schema dumps of several servers / tools list the built-in scalars explicitly; that is legal SDL
@@ -331,7 +340,8 @@ def render_json(schema, wrapped=False, builtins="none", rng=None, order=None, sp
             ft["possibleTypes"] = [_named_ref(o, s) for o in d["members"]]
         elif k == "input":
             ft["kind"] = "INPUT_OBJECT"
-            ft["inputFields"] = [{"name": f, "description": None, "type": _typeref(t, s), "defaultValue": None} for f, t in d["fields"]]
+            dfl = d.get("defaults") or {}
+            ft["inputFields"] = [{"name": f, "description": None, "type": _typeref(t, s), "defaultValue": dfl.get(f)} for f, t in d["fields"]]
             if one_of_key:
                 ft["isOneOf"] = bool(d.get("one_of"))
         if sparse:
